@@ -402,9 +402,13 @@ class MeanAndVariance(Mean):
     other_count_ratio = math_utils.safe_divide(other.count, self._count)
     delta_mean = math_utils.nanadd(self._mean, -prev_mean)
     mean_diff = math_utils.nanadd(other.mean, -self._mean)
+    # A column without any valid value on one side has a NaN variance there,
+    # it must not poison the merged variance (its weight is zero).
+    prev_var = math_utils.where(prev_count > 0, self._var, 0)
+    other_var = math_utils.where(other.count > 0, other.var, 0)
     self._var = (
-        prev_count_ratio * self._var
-        + other_count_ratio * other.var
+        prev_count_ratio * prev_var
+        + other_count_ratio * other_var
         + prev_count_ratio * delta_mean**2
         + other_count_ratio * mean_diff**2
     )
